@@ -29,6 +29,8 @@
 //! drop <t>                             ObjectStore::remove_dir_all(table root)
 //! scan <t> | scanv <t> <v>             ordered scan with _rowid of the latest / of version v
 //! count <t> | indices <t> | txn <t> <v> | take <t> <ids>
+//! txnh <t>                            read_transaction() on the HANDLE the last successful write at <t> returned (no re-open:
+//!                                      nothing re-inserts the transaction before the read)
 //! fscan <t> <lo>                       ordered scan with _rowid and filter `c0 >= lo` (uses the scalar index when there is one)
 //! ```
 //! Rows have one Int64 column `c0`; the values are a per-case counter, so no value is ever written twice.
@@ -73,6 +75,7 @@ enum Op {
     Txn { t: usize, v: u64 },
     Take { t: usize, ids: Vec<u64> },
     FScan { t: usize, lo: u64 },
+    TxnH { t: usize },
 }
 
 impl Op {
@@ -92,11 +95,12 @@ impl Op {
             | Op::Indices { t }
             | Op::Txn { t, .. }
             | Op::Take { t, .. }
-            | Op::FScan { t, .. } => Some(*t),
+            | Op::FScan { t, .. }
+            | Op::TxnH { t } => Some(*t),
         }
     }
     fn is_read(&self) -> bool {
-        matches!(self, Op::Scan { .. } | Op::ScanV { .. } | Op::Count { .. } | Op::Indices { .. } | Op::Txn { .. } | Op::Take { .. } | Op::FScan { .. })
+        matches!(self, Op::Scan { .. } | Op::ScanV { .. } | Op::Count { .. } | Op::Indices { .. } | Op::Txn { .. } | Op::Take { .. } | Op::FScan { .. } | Op::TxnH { .. })
     }
     fn name(&self) -> &'static str {
         match self {
@@ -115,6 +119,7 @@ impl Op {
             Op::Txn { .. } => "txn",
             Op::Take { .. } => "take",
             Op::FScan { .. } => "fscan",
+            Op::TxnH { .. } => "txnh",
         }
     }
 }
@@ -166,6 +171,7 @@ fn parse_op(line: &str) -> Option<Op> {
         ["indices", t] => Some(Op::Indices { t: parse_tab(t)? }),
         ["txn", t, v] => Some(Op::Txn { t: parse_tab(t)?, v: parse_nat(v)? }),
         ["take", t, ids] => Some(Op::Take { t: parse_tab(t)?, ids: parse_ids(ids)? }),
+        ["txnh", t] => Some(Op::TxnH { t: parse_tab(t)? }),
         ["fscan", t, lo] => Some(Op::FScan { t: parse_tab(t)?, lo: parse_nat(lo)? }),
         _ => None,
     }
@@ -184,6 +190,8 @@ struct Run {
     labels: Vec<String>,
     /// read every read again through a fresh session
     double_read: bool,
+    /// the handle the last successful write at each location returned
+    handles: [Option<Dataset>; 3],
 }
 
 struct C38 {
@@ -206,7 +214,7 @@ impl C38 {
             .block_on(ObjectStore::from_uri_and_params(registry.clone(), &uris[0], &ObjectStoreParams::default()))
             .ok()
             .map(|(s, _)| s);
-        Run { session, registry, anchor, uris, next_val: 0, labels: vec![], double_read }
+        Run { session, registry, anchor, uris, next_val: 0, labels: vec![], double_read, handles: [None, None, None] }
     }
 
     fn rows(run: &mut Run, n: usize) -> Vec<Row> {
@@ -230,7 +238,9 @@ impl C38 {
                 }
                 let rows = Self::rows(run, *n);
                 let ds = kit.create(&run.uris[*t], &spec, &[rows], &knobs)?;
-                Ok(Self::write_line(&ds))
+                let l = Self::write_line(&ds);
+                run.handles[*t] = Some(ds);
+                Ok(l)
             }
             Op::Append { t, f, n } | Op::Overwrite { t, f, n } => {
                 let d = kit.open(&run.uris[*t], None)?;
@@ -245,18 +255,24 @@ impl C38 {
                 } else {
                     kit.overwrite(&d, &spec, &[rows], &knobs)?
                 };
-                Ok(Self::write_line(&ds))
+                let l = Self::write_line(&ds);
+                run.handles[*t] = Some(ds);
+                Ok(l)
             }
             Op::Delete { t, lo, hi } => {
                 let mut d = kit.open(&run.uris[*t], None)?;
                 kit.lance_call("delete", d.delete(&format!("c0 >= {lo} AND c0 < {hi}")))?;
-                Ok(Self::write_line(&d))
+                let l = Self::write_line(&d);
+                run.handles[*t] = Some(d);
+                Ok(l)
             }
             Op::Restore { t, v } => {
                 let d = kit.open(&run.uris[*t], None)?;
                 let mut old = kit.lance_call("checkout_version", d.checkout_version(*v))?;
                 kit.lance_call("restore", old.restore())?;
-                Ok(Self::write_line(&old))
+                let l = Self::write_line(&old);
+                run.handles[*t] = Some(old);
+                Ok(l)
             }
             Op::Index { t } => {
                 let mut d = kit.open(&run.uris[*t], None)?;
@@ -264,7 +280,9 @@ impl C38 {
                     "create_index",
                     d.create_index(&["c0"], IndexType::BTree, Some("idx".into()), &ScalarIndexParams::default(), true),
                 )?;
-                Ok(Self::write_line(&d))
+                let l = Self::write_line(&d);
+                run.handles[*t] = Some(d);
+                Ok(l)
             }
             Op::Drop { t } => {
                 // a table that is not there: not_found (decided by opening it, like every other op)
@@ -273,6 +291,7 @@ impl C38 {
                     .block_on(ObjectStore::from_uri_and_params(run.registry.clone(), &run.uris[*t], &ObjectStoreParams::default()))
                     .map_err(KitError::from)?;
                 kit.lance_call("remove_dir_all", store.remove_dir_all(path))?;
+                run.handles[*t] = None;
                 Ok("ok".into())
             }
             _ => Err(KitError::other("not a write")),
@@ -305,7 +324,7 @@ impl C38 {
         line
     }
 
-    fn read_inner(kit: &Kit, run: &Run, op: &Op) -> KitResult<(String, String)> {
+    fn read_inner(kit: &Kit, run: &Run, op: &Op, fresh: bool) -> KitResult<(String, String)> {
         let spec = SchemaSpec::ints(1);
         let scan_line = |d: &Dataset| -> KitResult<String> {
             let rows = kit.scan(d, &spec, &ScanOpts { ordered: true, with_row_id: true, ..Default::default() })?;
@@ -365,7 +384,27 @@ impl C38 {
                     Some(tx) => {
                         let dbg = format!("{:?}", tx.operation);
                         let kind: String = dbg.chars().take_while(|c| c.is_ascii_alphanumeric()).collect();
-                        Ok((format!("txn={kind} rv={}", tx.read_version), format!("{} {} {kind} {}", tx.uuid, tx.read_version, dbg.len())))
+                        Ok((format!("txn={kind} rv={}", tx.read_version), format!("{} {} {kind}", tx.uuid, tx.read_version)))
+                    }
+                }
+            }
+            Op::TxnH { t } => {
+                let h = run.handles[*t].as_ref().ok_or_else(|| KitError { kind: ErrKind::NotFound, msg: "no handle".into() })?;
+                // shared session: the handle itself; fresh session: the same version opened through the fresh session
+                let opened;
+                let d = if fresh {
+                    opened = kit.open(&run.uris[*t], Some(h.version().version))?;
+                    &opened
+                } else {
+                    h
+                };
+                let tx = kit.lance_call("read_transaction", d.read_transaction())?;
+                match tx {
+                    None => Ok(("txn=none".into(), "none".into())),
+                    Some(tx) => {
+                        let dbg = format!("{:?}", tx.operation);
+                        let kind: String = dbg.chars().take_while(|c| c.is_ascii_alphanumeric()).collect();
+                        Ok((format!("txn={kind} rv={}", tx.read_version), format!("{} {} {kind}", tx.uuid, tx.read_version)))
                     }
                 }
             }
@@ -385,16 +424,16 @@ impl C38 {
     }
 
     /// a read through `session`; returns (canonical line, detailed text for the shared-vs-fresh comparison)
-    fn exec_read(&mut self, run: &Run, session: Arc<Session>, op: &Op) -> (String, String) {
+    fn exec_read(&mut self, run: &Run, session: Arc<Session>, op: &Op, fresh: bool) -> (String, String) {
         self.kit.session = session;
-        match Self::read_inner(&self.kit, run, op) {
+        match Self::read_inner(&self.kit, run, op, fresh) {
             Ok(x) => x,
             Err(e) => (err_line(&e), format!("err {} {}", e.kind.as_str(), e.msg.chars().take(160).collect::<String>())),
         }
     }
 
-    fn exec_read_guarded(&mut self, run: &Run, session: Arc<Session>, op: &Op) -> (String, String) {
-        match std::panic::catch_unwind(std::panic::AssertUnwindSafe(|| self.exec_read(run, session, op))) {
+    fn exec_read_guarded(&mut self, run: &Run, session: Arc<Session>, op: &Op, fresh: bool) -> (String, String) {
+        match std::panic::catch_unwind(std::panic::AssertUnwindSafe(|| self.exec_read(run, session, op, fresh))) {
             Ok(x) => x,
             Err(e) => {
                 let msg = e
@@ -419,10 +458,10 @@ impl C38 {
                 Some(Op::Session(_)) => "ok".to_string(),
                 Some(op) if op.is_read() => {
                     let shared = run.session.clone();
-                    let (line, detail) = self.exec_read_guarded(&run, shared, op);
+                    let (line, detail) = self.exec_read_guarded(&run, shared, op, false);
                     if run.double_read {
                         let fresh = Arc::new(Session::new(LARGE, LARGE, run.registry.clone()));
-                        let (fline, fdetail) = self.exec_read_guarded(&run, fresh, op);
+                        let (fline, fdetail) = self.exec_read_guarded(&run, fresh, op, true);
                         if fline != line || (fdetail != detail && !line.starts_with("err")) {
                             diff = Some(format!("shared session: {line} [{detail}]; fresh session: {fline} [{fdetail}]"));
                         }
@@ -440,6 +479,7 @@ impl C38 {
             out.push(line);
             diffs.push(diff);
         }
+        run.handles = [None, None, None];
         drop(run.anchor.take());
         (out, diffs)
     }
@@ -469,6 +509,32 @@ impl Prop for C38 {
     fn gen_case(&mut self, rng: &mut Rng, _tier: Tier, idx: usize) -> Vec<String> {
         let cap = ["large", "tiny", "zero", "large"][idx % 4];
         let mut lines = vec![format!("session {cap}")];
+        if idx % 10 == 9 {
+            // the transaction of a version of a dropped table must not be served for the table created at its place:
+            // read it (handle and re-open), drop, create again, read through the handle the write returned
+            let cap = ["large", "tiny", "zero"][(idx / 10) % 3];
+            let mut lines = vec![format!("session {cap}")];
+            let t = rng.usize(3);
+            let s = rng.usize(2);
+            lines.push(format!("create {t} s={s} f={} {}", 1 + rng.usize(3), 1 + rng.usize(5)));
+            lines.push(format!("txnh {t}"));
+            if rng.chance(1, 2) {
+                lines.push(format!("append {t} f=2 {}", 1 + rng.usize(3)));
+                lines.push(format!("txnh {t}"));
+                lines.push(format!("txn {t} 1"));
+            }
+            lines.push(format!("drop {t}"));
+            lines.push(format!("txnh {t}"));
+            lines.push(format!("create {t} s={s} f={} {}", 1 + rng.usize(3), 1 + rng.usize(5)));
+            lines.push(format!("txnh {t}"));
+            lines.push(format!("txn {t} 1"));
+            if rng.chance(1, 2) {
+                lines.push(format!("delete {t} 0 1"));
+                lines.push(format!("txnh {t}"));
+                lines.push(format!("txn {t} 2"));
+            }
+            return lines;
+        }
         let ntab = 1 + rng.usize(3);
         let recreate_ok = rng.chance(35, 100);
         let malformed = rng.chance(12, 100);
@@ -484,7 +550,8 @@ impl Prop for C38 {
             let k = 1 + rng.usize(3);
             for _ in 0..k {
                 match rng.usize(10) {
-                    8 | 9 => lines.push(format!("fscan {t} {}", next_val.saturating_sub(rng.below(9)))),
+                    8 => lines.push(format!("fscan {t} {}", next_val.saturating_sub(rng.below(9)))),
+                    9 => lines.push(format!("txnh {t}")),
                     0 | 1 | 2 => lines.push(format!("scan {t}")),
                     3 => lines.push(format!("count {t}")),
                     4 => lines.push(format!("indices {t}")),
@@ -640,9 +707,6 @@ impl Prop for C38 {
                     }
                 }
             }
-            if reported {
-                continue;
-            }
             let t = op.as_ref().and_then(|o| o.table());
             let opn = op.as_ref().map(|o| o.name()).unwrap_or("");
             let class = || -> Option<String> {
@@ -656,6 +720,26 @@ impl Prop for C38 {
                     _ => None,
                 }
             };
+            if (opn == "txn" || opn == "txnh") && diffs[ln].is_some() {
+                // the shared session and a fresh session read different transactions from the SAME store: never matched by a
+                // known finding, and reported even when an earlier line of the case already differed
+                res.failures.push(OracleFailure {
+                    what: format!(
+                        "line {ln} `{}` (cache capacity {cap_name}): the transaction read through the shared session is not the one stored: shared `{}`, caching disabled `{}`; {}",
+                        lines[ln],
+                        main[ln],
+                        control[ln],
+                        diffs[ln].clone().unwrap_or_default()
+                    ),
+                    key: None,
+                    line: ln,
+                });
+                res.tags.push("oracle:stale_transaction".into());
+                continue;
+            }
+            if reported {
+                continue;
+            }
             if main[ln] != control[ln] {
                 res.failures.push(OracleFailure {
                     what: format!(
